@@ -50,6 +50,9 @@ func (c *regexpPatternChecker) VisitExpr(x ast.Expr) {
 		return
 	}
 
+	if len(call.Args) == 0 {
+		return
+	}
 	switch qualifiedName(call.Fun) {
 	case "regexp.Compile", "regexp.CompilePOSIX", "regexp.MustCompile", "regexp.MustCompilePosix":
 		cv := c.ctx.TypesInfo.Types[call.Args[0]].Value
